@@ -75,6 +75,24 @@ func (w *world) rawRequest(victim *sess, from net.Addr, req commands.Request) (c
 	if err != nil {
 		return nil, err, ""
 	}
+	// The server words a refusal with its default codec or with that of the session the identifier belongs to now, which
+	// need not be the codec the sender of this message negotiated once: a refusal is recognised under whichever codec
+	// turns the answer into one of the protocol's error codes (no other codec turns it into one by chance).
+	tryWith := []enc.Encoder{enc.Base32Encoding}
+	for _, l := range w.all {
+		tryWith = append(tryWith, l.client.Serializer.Downstream.Encoder)
+	}
+	for _, e := range tryWith {
+		if r, derr := ser.DecodeDnsResponseWithParams(ans, e); derr == nil && r != nil {
+			if re := respError(r); re != nil {
+				for _, known := range commands.BadErrors {
+					if re == known {
+						return r, nil, ""
+					}
+				}
+			}
+		}
+	}
 	resp, derr := ser.DecodeDnsResponseWithParams(ans, ser.Downstream.Encoder)
 	return resp, derr, ""
 }
@@ -141,12 +159,30 @@ func hostileRequest(rt *rapid.T, victim *sess) (commands.Request, string) {
 	}
 }
 
+// drawOptions: what a session negotiates for itself - half of the sessions keep the defaults, the others switch one or
+// both codecs (to one of those the client's own detection can choose on a NULL-record path) and ask for another fragment
+// size. A session's negotiated settings are its own: whatever another session negotiates, its data keeps arriving.
+func drawOptions(rt *rapid.T) sessionOptions {
+	if rapid.Bool().Draw(rt, "defaultOptions") {
+		return sessionOptions{}
+	}
+	ups := []enc.Encoder{nil, enc.Base64Encoding, enc.Base64uEncoding, enc.Base128Encoding}
+	downs := []enc.Encoder{nil, enc.Base64Encoding, enc.Base64uEncoding, enc.Base128Encoding, enc.RawEncoding}
+	return sessionOptions{
+		Up:   ups[rapid.IntRange(0, len(ups)-1).Draw(rt, "upCodec")],
+		Down: downs[rapid.IntRange(0, len(downs)-1).Draw(rt, "downCodec")],
+		Frag: []uint32{0, 120, 400}[rapid.IntRange(0, 2).Draw(rt, "frag")],
+	}
+}
+
 func TestSessionIsolation(t *testing.T) {
 	rapid.Check(t, func(rt *rapid.T) {
 		w := &world{ss: &simServer{}}
 		w.srv = NewServerDnsListener(domain, w.ss)
 		defer w.srv.Close()
 		spoofs, closes, reopens, sharedAddr := 0, 0, 0, false
+		seenOptions := map[string]bool{}
+		noteOptions := func(o sessionOptions) { seenOptions[o.String()] = true }
 		fail := func(sig, msg string) {
 			if vlib.IsKnown("C13", sig) {
 				vlib.Rec.Known(sig, map[string]interface{}{"history": w.history, "problem": msg})
@@ -168,10 +204,12 @@ func TestSessionIsolation(t *testing.T) {
 				rt.Skip("enough sessions")
 			}
 			a := rapid.IntRange(0, len(addrPool)-1).Draw(rt, "addr")
-			s, err := openSession(w.ss, w.srv, addrPool[a])
+			opts := drawOptions(rt)
+			s, err := openSessionWith(w.ss, w.srv, addrPool[a], opts)
 			if err != nil {
-				fail("open-failed", fmt.Sprintf("a new session from %v could not be opened: %v", addrPool[a], err))
+				fail("open-failed", fmt.Sprintf("a new session from %v (%v) could not be opened: %v", addrPool[a], opts, err))
 			}
+			noteOptions(opts)
 			ns := &sess{session: s, idx: len(w.all), addr: a, live: true, tag: uint64(1000 * (len(w.all) + 1))}
 			for _, o := range w.liveOnes() {
 				if o.client.userId == ns.client.userId {
@@ -187,7 +225,7 @@ func TestSessionIsolation(t *testing.T) {
 				}
 			}
 			w.all = append(w.all, ns)
-			w.logf("open #%d from addr%d -> id %d", ns.idx, a, ns.client.userId)
+			w.logf("open #%d from addr%d -> id %d, %v", ns.idx, a, ns.client.userId, opts)
 		}
 		// openMany: several clients perform their version handshake at the same instant (the DNS server handles
 		// every query in its own goroutine)
@@ -200,6 +238,10 @@ func TestSessionIsolation(t *testing.T) {
 			addrs := make([]int, k)
 			for i := range addrs {
 				addrs[i] = rapid.IntRange(0, len(addrPool)-1).Draw(rt, "addr")
+			}
+			optss := make([]sessionOptions, k)
+			for i := range optss {
+				optss[i] = drawOptions(rt)
 			}
 			res := make([]*session, k)
 			errs := make([]error, k)
@@ -215,7 +257,7 @@ func TestSessionIsolation(t *testing.T) {
 			}
 			close(start)
 			wg.Wait()
-			w.logf("openMany %d from addrs %v", k, addrs)
+			w.logf("openMany %d from addrs %v, options %v", k, addrs, optss)
 			byId := map[uint16]*userConnection{}
 			for i := 0; i < k; i++ {
 				c, err := w.srv.Accept()
@@ -242,9 +284,11 @@ func TestSessionIsolation(t *testing.T) {
 					fail("duplicate-session-id", fmt.Sprintf("client %d was told identifier %d but the server has no such new session", i, res[i].client.userId))
 				}
 				res[i].user = u
+				res[i].opts = optss[i]
 				if err := res[i].finishSetup(); err != nil {
-					fail("open-failed", "session setup after concurrent handshake: "+err.Error())
+					fail("open-failed", fmt.Sprintf("session setup (%v) after concurrent handshake: %v", optss[i], err))
 				}
+				noteOptions(optss[i])
 				ns := &sess{session: res[i], idx: len(w.all), addr: addrs[i], live: true, tag: uint64(1000 * (len(w.all) + 1))}
 				w.all = append(w.all, ns)
 			}
@@ -341,7 +385,7 @@ func TestSessionIsolation(t *testing.T) {
 				}
 				if err == nil && resp != nil && respError(resp) == nil {
 					if _, isProbe := req.(*commands.TestUpstreamEncoderRequest); !isProbe || true {
-						fail("closed-id-accepted", fmt.Sprintf("a %s request carrying the identifier of closed session #%d was accepted without error", kind, s.idx))
+						fail("closed-id-accepted", fmt.Sprintf("a %s request carrying the identifier of closed session #%d was accepted without error: %T %+v", kind, s.idx, resp, resp))
 					}
 				}
 				checkAllLive("after a closed session's identifier was used")
@@ -402,6 +446,9 @@ func TestSessionIsolation(t *testing.T) {
 		}
 		if sharedAddr {
 			labels = append(labels, "shared-address")
+		}
+		if len(seenOptions) > 1 {
+			labels = append(labels, "sessions-with-different-negotiated-options")
 		}
 		h := w.history
 		vlib.Rec.Case(strings.Join(h, ";"), nontrivial, labels, func() interface{} { return h })
